@@ -91,11 +91,15 @@ impl AsyncWrite for ScriptWriter {
             n = n.min(a);
         }
         if let Some(k) = self.fail_at {
-            if self.out.len() >= k {
+            if self.out.len() >= k && !(self.failed && k % 3 == 1) {
+                // every third failure offset the error is a *transient* one (`Interrupted`, reported once, after the short write
+                // that reached the offset): a caller that gives up sees exactly what it sees with a permanent error; a caller
+                // that retries must not send anything twice
+                let first = !self.failed;
                 self.failed = true;
-                return Poll::Ready(Err(Error::new(ErrorKind::BrokenPipe, "scripted write error")));
+                return Poll::Ready(Err(if k % 3 == 1 && first { Error::new(ErrorKind::Interrupted, "scripted interruption") } else { Error::new(ErrorKind::BrokenPipe, "scripted write error") }));
             }
-            n = n.min(k - self.out.len());
+            if !self.failed { n = n.min(k - self.out.len()); }
         }
         self.out.extend_from_slice(&buf[..n]);
         Poll::Ready(Ok(n))
